@@ -124,7 +124,7 @@ def _length(ctx: _Ctx, flexible: bool, legacy_max: int) -> int:
     if s == "big" and ctx.big_left > 0 and rng.random() < 0.5:
         ctx.big_left -= 1
         if flexible:
-            return rng.choice((16382, 16383, 16384, 300, 1000))
+            return rng.choice((16382, 16383, 16384, 300, 1000, 32767, 32768, 40000))
         return rng.choice((min(legacy_max, 32767), 300, 1000, 16384))
     r = rng.random()
     if r < 0.15:
